@@ -43,7 +43,7 @@ impl ElseStatement { #[verifier::external_body] pub fn net_dependencies(&self) -
 pub struct IfStatement { pub value: PartV, pub body: PartV, pub else_statement: Option<ElseStatement> }
 pub struct WhileLoop { pub condition: PartV, pub body: PartV }
 pub struct NumberLoop { pub val_start: PartV, pub val_end: PartV, pub step: Option<PartV>, pub body: PartV }
-pub struct ReturnStatement(pub Option<PartV>);
+pub struct ReturnStatement { pub value: Option<PartV>, pub ends_module: bool }
 pub struct Assertion { pub value: PartV }
 pub struct PrintStatement(pub PartV);
 pub struct Reassignment { pub path: PartV, pub value: PartV }
@@ -78,7 +78,7 @@ STMTS = [
     ("else", "if_statement.rs", "impl Dependencies for ElseStatement", "ElseStatement", "nd_else(*self)", "the block or the chained if"),
     ("while", "while_loop.rs", "impl Dependencies for WhileLoop", "WhileLoop", "nd(self.condition).union(nd(self.body))", "condition and body"),
     ("from", "number_loop.rs", "impl Dependencies for NumberLoop", "NumberLoop", "nd(self.val_start).union(nd(self.val_end)).union(ndo(self.step)).union(nd(self.body))", "start, end, step and body"),
-    ("return", "return.rs", "impl Dependencies for ReturnStatement", "ReturnStatement", "ndo(self.0)", "the returned value"),
+    ("return", "return.rs", "impl Dependencies for ReturnStatement", "ReturnStatement", "ndo(self.value)", "the returned value"),
     ("assert", "assertion.rs", "impl Dependencies for Assertion", "Assertion", "nd(self.value)", "the asserted value"),
     ("print", "print_statement.rs", "impl Dependencies for PrintStatement", "PrintStatement", "nd(self.0)", "the printed value"),
     ("reassign", "reassignment.rs", "impl Dependencies for Reassignment", "Reassignment", "nd(self.path).union(nd(self.value))", "the place written through AND the value"),
